@@ -21,6 +21,7 @@ from .terms import _fnkey, FnKey
 
 MAX_STEPS = 400000
 MAX_STATES = 6000
+MAX_SECONDS = 40          # wall-clock budget of one abstract run (path conditions of deep terms make late forks slow): undecided beyond it, never a hang
 
 
 class T(tuple):
@@ -224,10 +225,12 @@ class Machine:
         st = State([root, Frm(body, env, 0, None, None, tuple(gints) if gints is not None else self._gints_of(body, None), None, inst or body.rec["path"])])
         self.out = []
         work = [st]
+        import time as _time
+        self._deadline = _time.time() + getattr(self, "max_seconds", MAX_SECONDS)
         while work:
             s = work.pop()
             self.nstates += 1
-            if self.nstates > getattr(self, "max_states", MAX_STATES) or self.steps > getattr(self, "max_steps", MAX_STEPS):
+            if self.nstates > getattr(self, "max_states", MAX_STATES) or self.steps > getattr(self, "max_steps", MAX_STEPS) or _time.time() > self._deadline:
                 self.out.append(Outcome("undecided", None, s.pc, (body.rec["path"], 0, "budget"), "abstract execution budget exceeded"))
                 break
             try:
@@ -617,6 +620,10 @@ class Machine:
             s.steps += 1
             if self.steps > getattr(self, "max_steps", MAX_STEPS):
                 raise Stop("undecided", None, "step budget")
+            if (self.steps & 1023) == 0 and getattr(self, "_deadline", None) is not None:
+                import time as _time
+                if _time.time() > self._deadline:
+                    raise Stop("undecided", None, "time budget")
             fi = len(s.frames) - 1
             fr = s.frames[fi]
             blk = fr.body.blocks[fr.bb]
